@@ -7,9 +7,12 @@
    ("Last.status", "len(History)", "revsorted(History)[0].status", "len(arg2)", …), each with
    the type the translator read off the source, the option flags of the action ([DFlag]),
    the error answers of calls ([DErr] "the error of this call is non-nil", [DErrIs] "… and
-   it is this error"), nil tests of pointers / slices / maps ([DNil]), and the constants of
-   pkg/release/v1 by their string value.  [deval] is total: a type error, an unknown
-   constant or a [DUnknown] node evaluates to [None], and no obligation accepts [None]. *)
+   it is this error"), nil tests of pointers / slices / maps ([DNil]), boolean expressions
+   the translator cannot read ([DOpaque]: an unconstrained boolean per name), and the
+   constants of pkg/release/v1 by their string value.  [deval] is total: a type error, an
+   unknown constant or a [DUnknown] node evaluates to [None], and no obligation accepts
+   [None].  The table of a Go function lists its guarded items (returns, calls, appends,
+   assignments, predicates) by key, each with its path condition. *)
 From Coq Require Import List String Bool ZArith.
 From Helm Require Import Engine.Types Engine.Ops.
 Import ListNotations.
@@ -23,6 +26,7 @@ Inductive dexp :=
 | DErr (src : string)
 | DErrIs (src what : string)
 | DNil (x : string)
+| DOpaque (name : string)
 | DStatus (v : string) | DEvent (v : string) | DPolicy (v : string)
 | DInt (z : Z) | DStr (s : string) | DBool (b : bool)
 | DEq (a b : dexp) | DNe (a b : dexp)
@@ -48,7 +52,8 @@ Record menv := mkEnv {
   m_str : string -> string;
   m_flag : string -> bool;
   m_err : string -> bool;        (* key: the call that produced the error; "src is what" for DErrIs *)
-  m_nil : string -> bool }.
+  m_nil : string -> bool;
+  m_opq : string -> bool }.       (* a condition the translator could not read: an unconstrained boolean *)
 
 Definition all_events : list event :=
   [PreInstall; PostInstall; PreDelete; PostDelete; PreUpgrade; PostUpgrade; PreRollback; PostRollback; TestHook].
@@ -127,6 +132,7 @@ Fixpoint deval (m : menv) (e : dexp) : option value :=
   | DErr src => Some (VB (m_err m src))
   | DErrIs src what => Some (VB (m_err m (err_is_key src what)))
   | DNil x => Some (VB (m_nil m x))
+  | DOpaque x => Some (VB (m_opq m x))
   | DStatus v => match status_of_str v with Some s => Some (VS s) | None => None end
   | DEvent v => match event_of_str v with Some s => Some (VE s) | None => None end
   | DPolicy v => match policy_of_str v with Some s => Some (VP s) | None => None end
@@ -163,6 +169,7 @@ Fixpoint deval (m : menv) (e : dexp) : option value :=
   | DIf c a b =>
       match deval m c, deval m a, deval m b with
       | Some (VB x), Some (VB va), Some (VB vb) => Some (VB (if x then va else vb))
+      | Some (VB x), Some (VN va), Some (VN vb) => Some (VN (if x then va else vb))
       | _, _, _ => None
       end
   | DUnknown _ => None
@@ -170,72 +177,106 @@ Fixpoint deval (m : menv) (e : dexp) : option value :=
 
 (* ---- the table kept on the Coq side ------------------------------------------------------ *)
 
-(* a site of the Go source is either tied to a condition of the model, or stated to lie
-   outside the model, with the reason *)
-Inductive site :=
-| Modelled (label : string) (c : menv -> bool)
-| Outside (label : string) (reason : string).
-
-(* the only restriction on environments: a variable that the translator named "len(…)" is
+(* the only restriction on ALL environments: a variable that the translator named "len(…)" is
    the value of Go's builtin len, which is never negative *)
 Definition is_len (x : string) : bool := prefix "len(" x.
 Definition env_wf (m : menv) : Prop := forall x, is_len x = true -> (0 <= m_n m x)%Z.
 
-(* the obligation for one site: for ALL (well-formed) environments the Go condition
-   evaluates, to the model's condition *)
-Definition site_ok (s : site) (g : dexp) : Prop :=
-  match s with
-  | Modelled _ c => forall m : menv, env_wf m -> deval m g = Some (VB (c m))
-  | Outside _ _ => True
+(* assumptions under which a function of the model stands for the Go function: the part of
+   the Go function's environment that the model does not have (each comes with its reason in
+   the table) *)
+Inductive assumption :=
+| ANoErr (src : string)                  (* this call does not fail *)
+| AErrIs (src what : string) (b : bool)  (* errors.Is(err of src, what) = b *)
+| AFlag (f : string) (b : bool)          (* an option the model does not have has this value *)
+| AOpaque (name : string) (b : bool)     (* a condition the translator cannot read has this value *)
+| ANil (x : string) (b : bool)
+| ANonNeg (x : string).                  (* an integer the model keeps in nat *)
+
+Definition holds (m : menv) (a : assumption) : Prop :=
+  match a with
+  | ANoErr s => m_err m s = false
+  | AErrIs s w b => m_err m (err_is_key s w) = b
+  | AFlag f b => m_flag m f = b
+  | AOpaque n b => m_opq m n = b
+  | ANil x b => m_nil m x = b
+  | ANonNeg x => (0 <= m_n m x)%Z
   end.
 
-Fixpoint sites_ok (ss : list site) (gs : list dexp) : Prop :=
-  match ss, gs with
-  | [], [] => True
-  | s :: ss', g :: gs' => site_ok s g /\ sites_ok ss' gs'
-  | _, _ => False
+Fixpoint all_hold (m : menv) (l : list assumption) : Prop :=
+  match l with
+  | [] => True
+  | a :: t => holds m a /\ all_hold m t
   end.
 
-(* the sites of function f ([] when the function is not in the table) *)
-Definition sites_of {A} (t : list (string * list A)) (f : string) : list A :=
-  match find (fun fl => String.eqb (fst fl) f) t with
-  | Some fl => snd fl
-  | None => []
+(* what the model says about one guarded item of a Go function: its path condition (or, for
+   a predicate, the predicate; for an integer local, its value) as a function of the
+   environment *)
+Inductive mitem :=
+| IB (c : menv -> bool)
+| IN (v : menv -> Z).
+
+Definition mvalue (it : mitem) (m : menv) : value :=
+  match it with IB c => VB (c m) | IN v => VN (v m) end.
+
+Record fmodel := mkFn {
+  fn_name : string;
+  fn_pre : list (assumption * string);          (* assumption, reason *)
+  fn_items : list (string * mitem) }.           (* item key, model *)
+
+(* the item of function f with key k in the generated table *)
+Definition go_item (gt : list (string * list (string * dexp))) (f k : string) : dexp :=
+  match find (fun fl => String.eqb (fst fl) f) gt with
+  | Some fl =>
+      match find (fun kv => String.eqb (fst kv) k) (snd fl) with
+      | Some kv => snd kv
+      | None => DUnknown "no such item"
+      end
+  | None => DUnknown "no such function"
   end.
 
-(* the obligation for one function: as many sites as the model's table lists, in the same
-   order, each meeting [site_ok] *)
-Definition fn_ok (st : list (string * list site)) (gt : list (string * list (string * dexp))) (f : string) : Prop :=
-  sites_ok (sites_of st f) (map snd (sites_of gt f)).
+(* the obligation for one item: for ALL environments that meet the function's assumptions
+   the Go expression evaluates, to the model's value *)
+Definition item_ok (pre : list assumption) (it : mitem) (g : dexp) : Prop :=
+  forall m : menv, env_wf m -> all_hold m pre -> deval m g = Some (mvalue it m).
 
-(* the whole table: the same functions in the same order, and every function ok *)
-Definition table_ok (st : list (string * list site)) (gt : list (string * list (string * dexp))) : Prop :=
-  map fst st = map fst gt /\ Forall (fn_ok st gt) (map fst st).
+Fixpoint items_ok (gt : list (string * list (string * dexp))) (f : string) (pre : list assumption)
+         (l : list (string * mitem)) : Prop :=
+  match l with
+  | [] => True
+  | (k, it) :: t => item_ok pre it (go_item gt f k) /\ items_ok gt f pre t
+  end.
 
-(* structure: the functions in order, and the number of sites of each *)
-Definition shape {A} (t : list (string * list A)) : list (string * nat) :=
-  map (fun fl => (fst fl, List.length (snd fl))) t.
+Definition fn_ok (gt : list (string * list (string * dexp))) (fm : fmodel) : Prop :=
+  items_ok gt (fn_name fm) (map fst (fn_pre fm)) (fn_items fm).
 
-Definition modelled (s : site) : bool := match s with Modelled _ _ => true | Outside _ _ => false end.
+Definition table_ok (mt : list fmodel) (gt : list (string * list (string * dexp))) : Prop :=
+  Forall (fn_ok gt) mt.
+
+Definition model_of (mt : list fmodel) (f : string) : fmodel :=
+  match find (fun fm => String.eqb (fn_name fm) f) mt with
+  | Some fm => fm
+  | None => mkFn f [] []
+  end.
 
 (* ---- environments -------------------------------------------------------------------------- *)
 
 Definition env0 : menv :=
   mkEnv (fun _ => false) (fun _ => SUnknown) (fun _ => 0%Z) (fun _ => TestHook) (fun _ => BeforeHookCreation)
-        (fun _ => "") (fun _ => false) (fun _ => false) (fun _ => false).
+        (fun _ => "") (fun _ => false) (fun _ => false) (fun _ => false) (fun _ => false).
 
 Definition upd {A} (x : string) (v : A) (f : string -> A) : string -> A :=
   fun y => if String.eqb y x then v else f y.
 
-Definition set_b x v m := mkEnv (upd x v (m_b m)) (m_s m) (m_n m) (m_e m) (m_p m) (m_str m) (m_flag m) (m_err m) (m_nil m).
-Definition set_s x v m := mkEnv (m_b m) (upd x v (m_s m)) (m_n m) (m_e m) (m_p m) (m_str m) (m_flag m) (m_err m) (m_nil m).
-Definition set_n x v m := mkEnv (m_b m) (m_s m) (upd x v (m_n m)) (m_e m) (m_p m) (m_str m) (m_flag m) (m_err m) (m_nil m).
-Definition set_e x v m := mkEnv (m_b m) (m_s m) (m_n m) (upd x v (m_e m)) (m_p m) (m_str m) (m_flag m) (m_err m) (m_nil m).
-Definition set_p x v m := mkEnv (m_b m) (m_s m) (m_n m) (m_e m) (upd x v (m_p m)) (m_str m) (m_flag m) (m_err m) (m_nil m).
-Definition set_str x v m := mkEnv (m_b m) (m_s m) (m_n m) (m_e m) (m_p m) (upd x v (m_str m)) (m_flag m) (m_err m) (m_nil m).
-Definition set_flags f m := mkEnv (m_b m) (m_s m) (m_n m) (m_e m) (m_p m) (m_str m) f (m_err m) (m_nil m).
-Definition set_err x v m := mkEnv (m_b m) (m_s m) (m_n m) (m_e m) (m_p m) (m_str m) (m_flag m) (upd x v (m_err m)) (m_nil m).
-Definition set_nil x v m := mkEnv (m_b m) (m_s m) (m_n m) (m_e m) (m_p m) (m_str m) (m_flag m) (m_err m) (upd x v (m_nil m)).
+Definition set_b x v m := mkEnv (upd x v (m_b m)) (m_s m) (m_n m) (m_e m) (m_p m) (m_str m) (m_flag m) (m_err m) (m_nil m) (m_opq m).
+Definition set_s x v m := mkEnv (m_b m) (upd x v (m_s m)) (m_n m) (m_e m) (m_p m) (m_str m) (m_flag m) (m_err m) (m_nil m) (m_opq m).
+Definition set_n x v m := mkEnv (m_b m) (m_s m) (upd x v (m_n m)) (m_e m) (m_p m) (m_str m) (m_flag m) (m_err m) (m_nil m) (m_opq m).
+Definition set_e x v m := mkEnv (m_b m) (m_s m) (m_n m) (upd x v (m_e m)) (m_p m) (m_str m) (m_flag m) (m_err m) (m_nil m) (m_opq m).
+Definition set_p x v m := mkEnv (m_b m) (m_s m) (m_n m) (m_e m) (upd x v (m_p m)) (m_str m) (m_flag m) (m_err m) (m_nil m) (m_opq m).
+Definition set_str x v m := mkEnv (m_b m) (m_s m) (m_n m) (m_e m) (m_p m) (upd x v (m_str m)) (m_flag m) (m_err m) (m_nil m) (m_opq m).
+Definition set_flags f m := mkEnv (m_b m) (m_s m) (m_n m) (m_e m) (m_p m) (m_str m) f (m_err m) (m_nil m) (m_opq m).
+Definition set_err x v m := mkEnv (m_b m) (m_s m) (m_n m) (m_e m) (m_p m) (m_str m) (m_flag m) (upd x v (m_err m)) (m_nil m) (m_opq m).
+Definition set_nil x v m := mkEnv (m_b m) (m_s m) (m_n m) (m_e m) (m_p m) (m_str m) (m_flag m) (m_err m) (upd x v (m_nil m)) (m_opq m).
 
 (* the option flags of the Go actions as the model's flag record sees them, by Go field
    name; options the model does not have (IsUpgrade, SkipCRDs, …) are off *)
